@@ -80,7 +80,13 @@ def benign_entries(props):
   d = os.path.join(VERIF, 'benign')
   if not os.path.isdir(d):
     return out
+  known = set()
+  kp = os.path.join(d, 'KNOWN_UNRECOGNISED.json')
+  if os.path.exists(kp):
+    known = {(e['patch'], e['property']) for e in json.load(open(kp))['entries']}
   for area in sorted(os.listdir(d)):
+    if not os.path.isdir(os.path.join(d, area)):
+      continue
     for f in sorted(os.listdir(os.path.join(d, area))):
       if not f.endswith('.diff'):
         continue
@@ -91,7 +97,8 @@ def benign_entries(props):
         if pid == 'C06' and not parser:
           continue
         out.append(dict(id='benign-%s-%s-%s' % (area, f[:-5], pid), prop=pid, kind='twin',
-                        patch=pp, edits=[], rule=None))
+                        patch=pp, edits=[], rule=None,
+                        may_be_unrecognised=('%s/%s' % (area, f), pid) in known))
   return out
 
 
@@ -170,6 +177,8 @@ def run_one(entry, root):
                   rc=p.returncode, rules=rules,
                   detail='' if ok else out[-1500:])
     ok = p.returncode == 0 and not fired
+    if not ok and entry.get('may_be_unrecognised') and p.returncode == 2 and not fired:
+      return dict(id=entry['id'], status='unrecognised', rc=2, rules=rules, detail='')
     return dict(id=entry['id'], status='silent' if ok else 'FALSE-ALARM',
                 rc=p.returncode, rules=rules, detail='' if ok else out[-1500:])
   finally:
@@ -202,6 +211,9 @@ if __name__ == '__main__':
   a = ap.parse_args()
   res = run(a.prop, a.jobs, a.root, a.id)
   bad = [r for r in res if r['status'] in ('MISSED', 'FALSE-ALARM')]
+  unrec = sum(r['status'] == 'unrecognised' for r in res)
+  if unrec:
+    print('documented unrecognised restructurings (exit 2, no VIOLATION): %d' % unrec)
   print('mutants fired=%d twins silent=%d skipped=%d bad=%d' % (
       sum(r['status'] == 'fired' for r in res),
       sum(r['status'] == 'silent' for r in res),
